@@ -159,6 +159,10 @@ FIXES = [
   "        if not 0 <= p <= 1:\n            raise ValueError(f\"parameter p {p} not between 0 and 1\")\n        if s <= 0:\n            raise ValueError(f\"parameter s {s} <= 0\")\n        self._p = p\n        self._s = s\n        # helper variable equal to ln(1-p) to avoid repetitive calculation.\n        self._lnp = math.log(1.0 - self._p)\n",
   "        if not 0 < p <= 1:\n            raise ValueError(f\"parameter p {p} not larger than 0 and at most 1\")\n        if s <= 0:\n            raise ValueError(f\"parameter s {s} <= 0\")\n        self._p = p\n        self._s = s\n        # helper variable equal to ln(1-p) to avoid repetitive calculation;\n        # for p = 1 (success at every trial) the limit -inf is used\n        if p < 1.0:\n            self._lnp = math.log(1.0 - self._p)\n        else:\n            self._lnp = -math.inf\n"),
 
+ ('C14-geom-log1p', 'distributions.py',
+  "        if p < 1.0:\n            self._lnp = math.log(1.0 - self._p)\n        else:\n            self._lnp = -math.inf\n        \n    def draw(self) -> int:\n        \"\"\"\n        Draw a value from the Binomial distribution, where the return value is\n        the number of failures before the first success",
+  "        if p < 1.0:\n            self._lnp = math.log1p(-self._p)\n        else:\n            self._lnp = -math.inf\n        \n    def draw(self) -> int:\n        \"\"\"\n        Draw a value from the Binomial distribution, where the return value is\n        the number of failures before the first success"),
+
  # C15
  ('C15-tri', 'distributions.py',
   "        if x >= self._lo and x <= self._mode:\n            return (2.0 * (x - self._lo)",
